@@ -370,17 +370,32 @@ def check_load_config(ctx, keys):
         if isinstance(n, ast.Attribute) and n.attr == "__dict__":
             bad.append(n.lineno)
     R.check("C20.4", "OWN", fl, "Config attributes are only set by __init__'s fixed names", not bad, "setattr/__dict__ used in bits.config at lines %s" % bad)
+    # update(): evaluated on a scripted Config object and concrete keyword arguments, including the falsy values a user can
+    # give explicitly ("" for the rpc options, 0, False): __init__ must be re-run with the current attributes overlaid by ALL
+    # of them
     fu = ctx.fn("bits.config.Config.update")
-    su = ev.run(fu)
-    ok = False
-    for c in su.calls:
-        if c[0] == "bits.config.Config.__init__" and isinstance(c[2], dict) and not c[4]:
-            d = c[2].get("**")
-            if isinstance(d, T) and d.op == "dictupdate" and len(d.args) == 2:
-                base, over = rules.unfz(d.args[0]), rules.unfz(d.args[1])
-                ok = isinstance(base, T) and base.op == "app" and base.args[0] in ("builtins.vars", "vars") and "kwargs" in tm.show(over)
-    R.check("C20.4", "DOM", fu, "update() lays kwargs over the current attributes and re-runs __init__ unconditionally", ok,
-            "Config.update does not re-instantiate through __init__(**{current attributes, then kwargs})", example="explicit option over a file value")
+    selfp = P("self", tm.ANY)
+    current = {"network": "mainnet", "rpc_datadir": "/data", "rpc_user": "alice", "log_level": "error", "output_format": "hex"}
+    cases = [{"network": "testnet"}, {"rpc_datadir": ""}, {"rpc_user": "", "network": "regtest"}, {"log_level": None}, {"output_format": "bin", "rpc_datadir": ""}, {}]
+    wrong = []
+    for kwargs in cases:
+        evu = ctx.evaluator(opaque={"bits.config.Config.__init__"})
+        evu.objects = {selfp: dict(current)}
+        su = evu.run(fu, {"self": selfp, "kwargs": dict(kwargs)})
+        calls = [c for c in su.calls if c[0] == "bits.config.Config.__init__" and tm.land(list(c[4])) is True]
+        want = dict(current)
+        want.update(kwargs)
+        got = None
+        if len(calls) == 1:
+            got = dict(calls[0][2])
+            star = got.pop("**", None)
+            if isinstance(rules.unfz(star), dict):
+                got.update(rules.unfz(star))
+        if got != want:
+            wrong.append((kwargs, got))
+    R.check("C20.4", "DOM", fu, "update(**kwargs) re-runs __init__ with the current attributes overlaid by every given option, falsy values included (%d cases)" % len(cases), not wrong,
+            "Config.update(%s) re-initialises with %s: an explicitly given option is lost or the object is not re-initialised" % (wrong[0] if wrong else ("", "")),
+            example="an explicit --rpc-datadir \"\" over a configured value")
 
 
 def _writes(s):
